@@ -29,6 +29,10 @@ package ice
 //@   requires C03 C07 only-valid-pairs: pair == nil || pair.state == pairSucceeded
 //@   site store nominated#1 assert C03 marks-nominated: value == true && object == pair
 //@   site call updateConnectionState#1 assert C04 selection-reports-connected: arg1 == ConnectionStateConnected && pair != nil && a.getSelectedPair() == pair
+//@   ghostvar announced bool = false
+//@   site call EnqueueSelectedCandidatePair#1 assert C11 C04 announces-exactly-the-pair-it-selected-after-it-is-stored: arg1 == pair && pair != nil && a.getSelectedPair() == pair
+//@   site call EnqueueSelectedCandidatePair#1 ghost announced := true
+//@   ensures C11 C04 every-selection-is-announced-and-an-unselection-is-not: announced == (pair != nil)
 //@   ensures C03 C04 stored: a.getSelectedPair() == pair
 //@   ensures C04 selecting-reports-connected: pair != nil ==> a.connectionState == ConnectionStateConnected
 //@   ensures C04 unselecting-keeps-the-state: pair == nil ==> a.connectionState == old(a.connectionState)
